@@ -65,6 +65,8 @@ pub fn parse(text: &str, options: &Language) -> Result<Vec<Box<dyn Renderable>>>
     let mut renderables = Vec::new();
 
     while let Some(element) = liquid.next() {
+        #[cfg(feature = "verif-hooks")]
+        crate::verif::yield_point("parse.element");
         if element.as_rule() == Rule::EOI {
             break;
         }
